@@ -73,9 +73,13 @@ def moduleAccountDiffs (s : State) : List Denom :=
 /-- F-farm-1 class: everything about the withdrawal is in order (recorded stake, pool
 update, principal leg) and only the reward collector cannot pay the accrued rewards -/
 def collectorShort (pre : State) (a : Addr) (id : PoolId) (denom : Denom) (amt : Nat) : Bool :=
-  match unstakeCore pre a id denom amt with
-  | .ok (s2, _, _, rewards, _) => !(isOkE (payRewards s2 a rewards))
-  | .error _ => false
+  match getPool pre id, getFarmer pre a id with
+  | some p, some f =>
+    validPoolId id && decide (denom = p.lpt) &&
+    (match unstakeAt pre a id denom amt p f with
+     | .ok (s2, _, rewards, _) => !(isOkE (payRewards s2 a rewards))
+     | .error _ => false)
+  | _, _ => false
 
 /-- per-rule budget solvency of one pool: remaining ≥ rpb × (end − max(last, start)) -/
 def budgetOkPool (p : Pool) : Bool :=
